@@ -1,0 +1,8 @@
+//go:build verif
+
+package core
+
+// VerifResetGlobals resets process-global chain state that leaks between
+// independent BlockChain instances in one process (the trie flush cursor), so
+// a verification harness can run many isolated cases in one process.
+func VerifResetGlobals() { lastWrite = 0 }
